@@ -1023,6 +1023,15 @@ def site_of_difference(iface, model, emitted):
                 if x != y:
                     return ("parameter-default", "default value of parameter slot %d: declared %s, emitted %s" % (k, fmt_bits(x), fmt_bits(y)), k)
         if f == "law":
+            ta, tb = a[f].split(), b.get(f, "").split()
+            for x, y in zip(ta, tb):
+                if x != y:
+                    if ":" in x and ":" in y:       # a point of a table
+                        return ("law", "table point declared (%s), emitted (%s)" % (", ".join(fmt_bits(t) for t in x.split(":") if t != "@"),
+                                                                                  ", ".join(fmt_bits(t) for t in y.split(":") if t != "@")), None)
+                    if ta[0] == tb[0] == "const":
+                        return ("law", "value declared %s, emitted %s" % (fmt_bits(x), fmt_bits(y)), None)
+                    break
             return ("law", "law `%s` emitted as `%s`" % (a[f][:200], b.get(f, "")[:200]), None)
         return (f, "%s: model `%s`, emitted `%s`" % (f, a.get(f), b.get(f)), None)
     return ("unknown", "IR strings differ", None)
@@ -1146,7 +1155,7 @@ def effective(d, ov, iface):
 def run(ck):
     rng = random.Random(ck.seed)
     ck.ensure_targets("mfront", "mfront-query")
-    nfn, ndata = (14, 6) if ck.quick else (220, 80)
+    nfn, ndata = (14, 6) if ck.quick else (120, 40)
     plan = []
     for i in range(nfn):
         plan.append(("fn", ["short", "medium", "long", "short"][i % 4]))
